@@ -282,8 +282,8 @@ func scenarios(r *evid.Run) []scen {
 		out = append(out, scen{Name: "2c-p2p-b3", Blocks: []int{3, 4}, Voted: 60, Env: "p2p", Bound: 3, EnvSeed: 7})
 		out = append(out, scen{Name: "1c-treap-b4", Blocks: []int{3}, Voted: 60, Env: "treap", Bound: 4, EnvSeed: 7})
 		out = append(out, scen{Name: "v2+1c-b3", V2: []int{1}, Blocks: []int{2}, Voted: 60, Env: "", Bound: 3, EnvSeed: 11})
-		for bv := 5; bv < 15; bv++ {
-			out = append(out, scen{Name: fmt.Sprintf("3c-treap+p2p-b2-%d", bv), Blocks: []int{bv, bv + 1, bv + 2}, Voted: 100, Env: "treap+p2p", Bound: 2, EnvSeed: int64(bv)})
+		for bv := 5; bv < 8; bv++ {
+			out = append(out, scen{Name: fmt.Sprintf("3c-treap+p2p-b1-%d", bv), Blocks: []int{bv, bv + 1, bv + 2}, Voted: 100, Env: "treap+p2p", Bound: 1, EnvSeed: int64(bv)})
 		}
 	}
 	return out
